@@ -109,7 +109,7 @@ class CosimEngine(Engine):
                        'flatten_indices', 'whitespace_only_echo_line', 'perf_new', 'perf_old', 'perf_none',
                        'block_without_rows', 'screen_output_read', 'logfile_read_by_run',
                        'mixed_column_sets', 'nonfinite_tokens', 'int_beyond_32bit', 'two_versions_in_one_log_object',
-                       'step_not_first_column', 'recovery_after_crash_in_one_call', 'clean_run_covers_whole_history']
+                       'step_not_first_column', 'restart_ends_below_previous', 'recovery_after_crash_in_one_call', 'clean_run_covers_whole_history']
     rule = ('Each run is a history of up to 16 operations in one fresh scratch directory. invoke: atomman.lammps.run() with the '
             'stub LAMMPS behind it (script or script file, restart script or not, one of six log-file names or no log file, '
             'screen on/off, mpi prefix, suffix); the stub prints a log from the documented layout (16 version banners, either '
@@ -141,7 +141,10 @@ class CosimEngine(Engine):
                    'whatever its tokens parse to; a block whose header line is in flight may be absent',
                    'a torn version banner exempts the version/date check of that Log object only',
                    'after reads of logs with different banners any of the versions seen is accepted (the statement does not say which)',
-                   'flatten first/last is checked only on restart-shaped step ranges (the tutorial reserves style="all" for the rest) '
+                   'flatten first/last is checked on every selection of runs for which the documented shortcut (rows beyond the last '
+                   'merged step / rows before this run\'s first step) and the statement\'s set semantics (each step once, from the '
+                   'earliest / latest run printing it) coincide on the printed steps; timestep resets and uncovered tails are left '
+                   'to style="all" as the tutorial says '
                    'and only for cells whose column the source run printed; rows whose Step equals an in-flight row\'s Step are exempt',
                    'timing breakdowns are not part of the statement: only that they do not disturb the thermo tables',
                    'run() raising after a killed or failed LAMMPS is expected and not checked; the directory contents are']
@@ -226,7 +229,11 @@ class CosimEngine(Engine):
                 elif x < 0.8:
                     start, every = r.choice(s), ev                      # restart from an earlier restart file
                     need = (max(s) - start) // every + 1
-                    n = max(n, need + r.choice([0, 0, 1, 5]))
+                    if r.random() < 0.75:
+                        n = max(n, need + r.choice([0, 0, 1, 5]))
+                    else:
+                        n = max(1, min(n, need - 1))                    # ... that itself stopped before reaching the old end
+                        ctx.probe('restart_ends_below_previous')
                 else:
                     start, every = hi + r.choice([1, ev, 7 * ev]), r.choice([ev, 10, 100])   # beyond the log
             b = {'echo': [r.choice(fl.ECHO_LINES) for _ in range(r.choice([0, 1, 2, 4, 9]))], 'kind': r.choice(['run', 'run', 'min']),
@@ -771,7 +778,7 @@ class CosimEngine(Engine):
             ctx.sig('flatten', 'all', len(rows_sel), first is not None, last is not None)
             return
 
-        if not lm.restart_shaped(rows_sel):
+        if not lm.shortcut_is_exact(rows_sel, style):
             ctx.probe('flatten_unshaped_skipped')
             return
         exp = lm.flatten_expect(rows_sel, style)
